@@ -30,6 +30,7 @@ pub enum Kind {
     ReadGrad,
     ClearGrad,
     Update,
+    Probe,
 }
 
 #[derive(Clone, Debug)]
@@ -52,6 +53,12 @@ pub struct GenCfg {
     pub dir_budget: usize,
     /// largest magnitude allowed for any value
     pub max_abs: f64,
+    /// fetched gradients may be used as (untracked) operands of later operations
+    pub grad_operands: bool,
+    /// after the recipe: for up to this many live handles, clear every gradient and run one more pass
+    pub residue_probes: usize,
+    /// after the recipe: drop every operation result and probe every leaf for sole ownership
+    pub final_release_probe: bool,
 }
 
 impl GenCfg {
@@ -69,6 +76,9 @@ impl GenCfg {
             flag_results: false,
             dir_budget: 4096,
             max_abs: 1e4,
+            grad_operands: true,
+            residue_probes: 0,
+            final_release_probe: false,
         }
     }
 }
@@ -77,7 +87,7 @@ struct El<'a> {
     cfg: &'a GenCfg,
     m: RefState,
     steps: Vec<Step>,
-    /// handles that hold fetched gradients (never flagged tracked, never parameters)
+    /// model nodes that are fetched gradients (never flagged tracked, never parameters, never probed)
     grad_handles: Vec<usize>,
     n_backward: usize,
     table: Vec<Kind>,
@@ -93,6 +103,18 @@ const EXPONENTS: [f64; 10] = [2.0, 3.0, 1.0, 0.5, -1.0, 1.5, -0.5, 0.0, -2.0, 4.
 impl<'a> El<'a> {
     fn live(&self) -> Vec<usize> {
         self.m.live_handles()
+    }
+    /// does the handle hold a fetched gradient (or a clone of one)?
+    fn is_grad(&self, h: usize) -> bool {
+        self.m.handles[h].as_ref().map_or(false, |hd| self.grad_handles.contains(&hd.node))
+    }
+    /// handles that may be used as operands
+    fn operands(&self) -> Vec<usize> {
+        if self.cfg.grad_operands {
+            self.live()
+        } else {
+            self.live().into_iter().filter(|h| !self.is_grad(*h)).collect()
+        }
     }
     fn dims(&self, h: usize) -> Vec<usize> {
         self.m.node_of(h).t.dims.clone()
@@ -191,7 +213,7 @@ impl<'a> El<'a> {
 
     fn binary(&mut self, i: &Instr, rebind: bool) -> bool {
         use OpKind::*;
-        let live = self.live();
+        let live = self.operands();
         let x = pick(i[1], &live);
         let ops: Vec<OpKind> = if self.cfg.exact_only { vec![Add, Mul, Sub, Axpy(pick(i[6], &SCALES))] } else { vec![Add, Mul, Sub, Div, Axpy(pick(i[6], &SCALES))] };
         let op = pick(i[7], &ops);
@@ -203,7 +225,7 @@ impl<'a> El<'a> {
                 None => x,
             }
         } else {
-            let cands: Vec<usize> = self.live().into_iter().filter(|&h| broadcast_dims(&xd, &self.dims(h)).map_or(false, |d| numel(&d) <= self.cfg.max_elems)).collect();
+            let cands: Vec<usize> = self.operands().into_iter().filter(|&h| broadcast_dims(&xd, &self.dims(h)).map_or(false, |d| numel(&d) <= self.cfg.max_elems)).collect();
             if cands.is_empty() {
                 x
             } else {
@@ -223,7 +245,7 @@ impl<'a> El<'a> {
     }
 
     fn matmul(&mut self, i: &Instr) -> bool {
-        let live = self.live();
+        let live = self.operands();
         let a = pick(i[1], &live);
         let ad = self.dims(a);
         let (ta, tb) = (i[4] & 1 == 1 && ad.len() >= 2, i[4] & 2 == 2);
@@ -231,7 +253,7 @@ impl<'a> El<'a> {
         if i[3] < 110 {
             for (ta, tb) in [(ta, tb), (false, true), (true, false), (false, false)] {
                 let op = OpKind::Matmul { ta, tb, has_c: false };
-                let cands: Vec<usize> = self.live().into_iter().filter(|&h| self.try_eval(&op, &[a, h]).is_some()).collect();
+                let cands: Vec<usize> = self.operands().into_iter().filter(|&h| self.try_eval(&op, &[a, h]).is_some()).collect();
                 if !cands.is_empty() {
                     let b = pick(i[2], &cands);
                     return self.apply(op, vec![a, b]);
@@ -278,7 +300,7 @@ impl<'a> El<'a> {
     }
 
     fn conv(&mut self, i: &Instr) -> bool {
-        let cands: Vec<usize> = self.live().into_iter().filter(|&h| self.dims(h).len() >= 3 && self.dims(h).len() <= 4).collect();
+        let cands: Vec<usize> = self.operands().into_iter().filter(|&h| self.dims(h).len() >= 3 && self.dims(h).len() <= 4).collect();
         let img = if !cands.is_empty() && i[3] < 128 {
             pick(i[1], &cands)
         } else {
@@ -304,7 +326,7 @@ impl<'a> El<'a> {
     }
 
     fn sum_reshape(&mut self, i: &Instr) -> bool {
-        let live = self.live();
+        let live = self.operands();
         let x = pick(i[1], &live);
         let d = self.dims(x);
         if i[2] & 1 == 0 {
@@ -316,10 +338,10 @@ impl<'a> El<'a> {
     }
 
     fn custom(&mut self, i: &Instr) -> bool {
-        let live = self.live();
+        let live = self.operands();
         let x = pick(i[1], &live);
         let xd = self.dims(x);
-        let same: Vec<usize> = self.live().into_iter().filter(|&h| self.dims(h) == xd).collect();
+        let same: Vec<usize> = self.operands().into_iter().filter(|&h| self.dims(h) == xd).collect();
         match i[4] % 4 {
             0 => self.apply(OpKind::CAdd, vec![x, pick(i[2], &same)]),
             1 => self.apply(OpKind::CMul, vec![x, pick(i[2], &same)]),
@@ -329,7 +351,7 @@ impl<'a> El<'a> {
     }
 
     fn ifgt(&mut self, i: &Instr) -> bool {
-        let live = self.live();
+        let live = self.operands();
         let cond = pick(i[1], &live);
         let target = pick(i[2], &live);
         let cn = self.m.node_of(cond).t.clone();
@@ -341,7 +363,7 @@ impl<'a> El<'a> {
         }
         let td = self.dims(target);
         let shape_preserving = |me: &El, sel: u8, salt: u8| -> Option<ApplySpec> {
-            let fits: Vec<usize> = me.live().into_iter().filter(|&h| broadcast_dims(&td, &me.dims(h)).map_or(false, |d| d == td)).collect();
+            let fits: Vec<usize> = me.operands().into_iter().filter(|&h| broadcast_dims(&td, &me.dims(h)).map_or(false, |d| d == td)).collect();
             let y = pick(sel, &fits);
             let cands = [
                 ApplySpec { op: OpKind::Mul, args: vec![target, y] },
@@ -383,8 +405,10 @@ impl<'a> El<'a> {
     }
 
     fn instr(&mut self, i: &Instr) {
-        let live = self.live();
+        let all_live = self.live();
+        let live = self.operands();
         let kind = if live.is_empty() { Kind::Leaf } else { self.table[(i[0] as usize * self.table.len()) >> 8] };
+        let _ = &all_live;
         let nl = live.len();
         match kind {
             Kind::Leaf => {
@@ -432,7 +456,7 @@ impl<'a> El<'a> {
                 self.ifgt(i);
             }
             Kind::Flag => {
-                let cands: Vec<usize> = live.iter().copied().filter(|h| !self.grad_handles.contains(h) && (self.cfg.flag_results || !self.m.node_of(*h).has_graph())).collect();
+                let cands: Vec<usize> = live.iter().copied().filter(|h| !self.is_grad(*h) && (self.cfg.flag_results || !self.m.node_of(*h).has_graph())).collect();
                 if !cands.is_empty() {
                     let how = [FlagOp::Start, FlagOp::Stop, FlagOp::Tracked, FlagOp::Untracked][i[4] as usize % 4];
                     self.emit(Step::Flag { h: pick(i[1], &cands), how });
@@ -445,13 +469,19 @@ impl<'a> El<'a> {
                 let h = pick(i[1], &live);
                 if self.emit(Step::ReadGrad { h }) {
                     let slot = self.m.handles.len() - 1;
-                    if self.m.handles[slot].is_some() {
-                        self.grad_handles.push(slot);
+                    if let Some(hd) = &self.m.handles[slot] {
+                        self.grad_handles.push(hd.node);
                     }
                 }
             }
             Kind::ClearGrad => {
                 self.emit(Step::ClearGrad { h: pick(i[1], &live), via_replace: i[4] & 1 == 1 });
+            }
+            Kind::Probe => {
+                let cands: Vec<usize> = live.iter().copied().filter(|h| !self.is_grad(*h) && !self.m.node_of(*h).has_graph() && self.m.sole_owner(*h)).collect();
+                if !cands.is_empty() {
+                    self.emit(Step::ProbeSole { h: pick(i[1], &cands) });
+                }
             }
             Kind::Update => {
                 // parameters: graph-less arrays, one handle per node, no fetched gradients, predictable gradient
@@ -460,7 +490,7 @@ impl<'a> El<'a> {
                 for &h in &live {
                     let hd = self.m.handle(h);
                     let node = &self.m.nodes[hd.node];
-                    if node.has_graph() || node.op.is_some() || self.grad_handles.contains(&h) || node.grad == GradSlot::Unknown || seen.contains(&hd.node) {
+                    if node.has_graph() || node.op.is_some() || self.is_grad(h) || node.grad == GradSlot::Unknown || seen.contains(&hd.node) {
                         continue;
                     }
                     if (i[2] >> (params.len() % 8)) & 1 == 0 || params.is_empty() {
@@ -496,6 +526,44 @@ pub fn elaborate(cfg: &GenCfg, recipe: &[Instr]) -> History {
         let tail = recipe.last().copied().unwrap_or([0; 8]);
         // the newest live result (or leaf) is the root
         el.backward(&[0, 0, 0, 0, tail[4], 0, 0, tail[7]]);
+    }
+    if cfg.residue_probes > 0 {
+        let live = el.live();
+        let targets: Vec<usize> = live.iter().rev().copied().filter(|h| !el.is_grad(*h)).take(cfg.residue_probes).collect();
+        for (k, h) in targets.into_iter().enumerate() {
+            for &c in &el.live() {
+                el.emit(Step::ClearGrad { h: c, via_replace: (c + k) % 2 == 0 });
+            }
+            el.backward(&[0, 0, 0, 0, (k as u8) % 4, 0, 0, 0]);
+            let _ = h;
+            // the pass above starts from the newest handle; rotate roots by starting passes from older ones too
+            let n = el.m.node_of(h).t.numel();
+            let seed = Some(gen_vals(h as u64 + 17, n, if cfg.exact_only { VKind::Int } else { VKind::Small }));
+            el.emit(Step::Backward { h, seed });
+        }
+    }
+    if cfg.final_release_probe {
+        for h in el.live() {
+            if el.m.node_of(h).has_graph() || el.is_grad(h) {
+                el.emit(Step::Drop { h });
+            }
+        }
+        // clones of one array: keep a single handle per array
+        let mut seen: Vec<usize> = vec![];
+        for h in el.live() {
+            let n = el.m.handle(h).node;
+            let b = el.m.nodes[n].buffer;
+            if seen.contains(&b) {
+                el.emit(Step::Drop { h });
+            } else {
+                seen.push(b);
+            }
+        }
+        for h in el.live() {
+            if el.m.sole_owner(h) && !el.m.node_of(h).has_graph() {
+                el.emit(Step::ProbeSole { h });
+            }
+        }
     }
     History { steps: el.steps }
 }
